@@ -12,7 +12,7 @@ from symx.vloop import Script
 from .common import MC, P, Q, TTL_FOREVER, RecTransport, loop_clean, new_loop
 
 PROPERTY = "C09"
-BUDGET_S = {"quick": 600, "thorough": 3000}
+BUDGET_S = {"quick": 900, "thorough": 7200}
 STUBS = ["event loop: VirtualLoop - time is a symbolic integer tick (1 ms); external operations are injected as the I/O batch of a solver-chosen iteration (before the timers due at that tick, or after 1..3 further iterations while work is pending)"]
 ASSUMPTIONS = [
     "ticks of 1 ms: a refresh closer to the deadline than one tick is 'simultaneous' (tie rule: 'stopped then present again' or 'no notification')",
